@@ -433,7 +433,7 @@ def run(rep):
             rep.undecided("R13.b", rel, f"{cls}.from_dict", "no-data value restored without a float conversion", "evaluation failed", line=fd.lineno)
         else:
             rep.check(not lossy, "R13.b", rel, f"{cls}.from_dict", "no-data value restored without a float conversion (integers beyond 2^53 survive)",
-                      f"{sorted(set(lossy))[:2]}", line=fd.lineno)
+                      f"{sorted(set(lossy))[:2]}", line=fd.lineno, firm=True)
         rep.check(rkeys <= set(wkeys), "R13.b", rel, f"{cls}.from_dict", "keys read are written by to_dict",
                   f"read but not written: {sorted(rkeys - set(wkeys))}", line=fd.lineno)
         rep.check(set(wkeys) <= rkeys, "R13.b", rel, f"{cls}.to_dict", "keys written are restored by from_dict",
